@@ -58,6 +58,9 @@ CHECKS = {
  "C19": dict(cat="proof", tech="contract-based deductive by structural induction: one obligation per constructor / opcode, obtained by running the real converter on a one-level term with fresh leaves and proving with z3 that the result has the constructor's semantics (C99 opcode table vs SymPy head table, shared uninterpreted transcendental functions); constant-leaf branches and compositionality decided from the ast of the real source",
              text="Every CasADi opcode casadi_to_sympy accepts and every SymPy head sympy_to_casadi accepts keeps its meaning for all leaf values (incl. negative operands, non-integer floats); unsupported constructs raise; f_dict dispatch, symbol tables (incl. cse) are consistent. Variable-arity heads and matrices are checked for stated arities/shapes (bounded part, labelled).",
              note="op-semantics tables trusted; induction principle not machine-checked; Add/Mul arity 2..4 and matrix shapes bounded; one known finding (IEEE remainder)", ref="5/C19"),
+ "C06": dict(cat="exploration", tech="contract-based: rigorous sub-lemmas on the real series Functions (switch structure, closed form = named function by ring identities, truncation bound by one-variable Taylor forms with exact rational remainders, exact rational evaluation of values and AD Jacobians at zero) + a BOUNDED stand-in for the floating-point clause (doubles vs 120-digit reference on a log grid through every switch)",
+             text="The main clause (double-precision error <= 1e-9 for every rotation magnitude in [0, 1] rad, no jump at the switch) is only explored: every consumer is evaluated at 34 magnitudes from 0 and denormals to 1 rad, on both sides of every switch, in 3 directions, against a 120-digit evaluation of the analytically continued function. Proved rigorously underneath: each series entry is if_else(|x| < 1e-3, polynomial, closed form), the closed form is the named function, |polynomial - analytic continuation| <= 1e-12 on the whole cell (actual bounds ~1e-17), values and AD Jacobians at zero rotation are finite (known findings: quaternion/DCM log Jacobians are NaN at the identity).",
+             note="floating-point clause bounded, not proved; lemma L-TAYLOR; mpmath reference; closed-cell exactness in C02-C05", ref="5/C06"),
 }
 NA = {
  "C17": "closed-loop convergence of the hybrid cascade from an envelope of initial conditions is a whole-trajectory property; no pre/postcondition on a function of /repo expresses it short of a Lyapunov certificate (its per-call ingredients are C13, C15, C16)",
